@@ -29,6 +29,9 @@ type Plan struct {
 	AdvCfg  *AdvCfg     `json:"adv_cfg,omitempty"` // the hostile counterparty's behaviour (when Scn.Kind[i]=="adv")
 	Silence []SilenceAt `json:"silence,omitempty"` // peer goes silent after its k-th message
 
+	Watch []WatchSpec `json:"watch,omitempty"` // component simulation of the chain watchers (C20)
+	Comp  []CompOp    `json:"comp,omitempty"`  // component simulation scripts (policy C25, peersync C28, ...)
+
 	// Heal phase (liveness properties): faults stop, chain advances, restarts happen.
 	Heal HealCfg `json:"heal"`
 }
@@ -77,6 +80,13 @@ type Scenario struct {
 	StartHeightLBTC uint32 `json:"start_height_lbtc"`
 
 	DurationSec int `json:"duration_sec"` // fault phase length
+
+	// PeerSync: real nodes also run the peer-sync gossip (real peersync.PeerSync)
+	PeerSync bool `json:"peersync,omitempty"`
+
+	// Component: "" = whole node; "watchers", "policy", "peersync" = one real
+	// component alone against its simulated back-end (component simulations)
+	Component string `json:"component,omitempty"`
 
 	// RpcParkRate: per-mille of polling RPC reads that are scheduling points
 	RpcParkRate int `json:"rpc_park_rate,omitempty"`
